@@ -41,6 +41,17 @@ def import_pest():
     return pest
 
 
+def die_with_parent() -> None:
+    """Called in pool workers: a worker must not outlive a harness process that is killed (e.g. by `timeout`)."""
+    try:
+        import ctypes  # noqa: PLC0415
+        import signal  # noqa: PLC0415
+
+        ctypes.CDLL("libc.so.6", use_errno=True).prctl(1, signal.SIGKILL)  # PR_SET_PDEATHSIG
+    except Exception:  # noqa: BLE001
+        pass
+
+
 class MachineryError(Exception):
     """The check could not be evaluated (never a property verdict)."""
 
